@@ -27,6 +27,9 @@ pub struct Map {
     pub has_sources_content: bool,
     /// optional embedded contents, parallel to `sources` (emitted when non-empty)
     pub sources_content: Vec<Option<String>>,
+    /// non-zero: `to_json` lists the segments of a line in a shuffled order (valid: a segment's
+    /// column delta may be negative; consumers index by position)
+    pub shuffle_salt: u64,
 }
 
 const B64: &[u8; 64] = b"ABCDEFGHIJKLMNOPQRSTUVWXYZabcdefghijklmnopqrstuvwxyz0123456789+/";
@@ -164,6 +167,14 @@ impl Map {
         let mut mappings = String::new();
         let mut toks = self.toks.clone();
         toks.sort_by_key(|t| (t.gl, t.gc));
+        if self.shuffle_salt != 0 && !toks.iter().any(|t| t.range) {
+            // within a line, a salted order (range bits are positional, so range maps stay sorted)
+            let salt = self.shuffle_salt;
+            toks.sort_by_key(|t| {
+                let h = (t.gc as u64 ^ salt).wrapping_mul(0x9E37_79B9_7F4A_7C15).rotate_left(17) ^ (t.gl as u64).wrapping_mul(0xD6E8_FEB8_6659_FD93);
+                (t.gl, h)
+            });
+        }
         let (mut src, mut sl, mut sc, mut name) = (0i64, 0i64, 0i64, 0i64);
         let mut line = 0u32;
         let mut gc = 0i64;
